@@ -159,3 +159,345 @@ class C16(E2ECheck):
                                     f'<={mp} parts, <={ma} attempts per part',
                 'explanation': 'exhaustive: true refers to sub-domain (a) '
                                'only; (b) and (c) are sampled'}
+
+
+class C12(E2ECheck):
+    id = 'C12'
+    quick_examples = 40000
+    thorough_examples = 600000
+    profile = {
+        'ntransfers': (1, 4), 'limits': 'ones',
+        'subs': {'max': 1, 'size': True},
+        'stream_scripts': True, 'stream_hard_faults': True,
+        'fault_sites': ['s3.' + o for o in gen.S3_OPS] + [
+            'src.read', 'fs.write', 'dst.write', 'cb.on_progress',
+            'fs.rename'],
+        'max_faults': 2, 'cancels': 2,
+        'ends': ['shutdown', 'shutdown', 'shutdown_cancel', 'with_exc'],
+    }
+    rule = ('(a) exhaustive DFS over every sequence of {non-blocking acquire'
+            '(tag), release(held token), release(unknown tag), release('
+            'never-issued token)} with <=3 tags (up to renaming), capacity '
+            '1..3, to the depth stated in coverage.exhaustive_bound, real '
+            'SlidingWindowSemaphore vs reference model after every op; (b) '
+            'Hypothesis sequences up to 40 ops / capacity 5 and TaskSemaphore'
+            ' sequences; (c) blocking histories under the deterministic '
+            'scheduler (<=3 blocking acquirers, 1-2 releasers, drawn release'
+            ' order and schedule); (d) quiescence of every manager semaphore'
+            ' after end-to-end runs with failures and cancels; non-trivial ='
+            ' history with an out-of-order release (a,b), a parked acquirer '
+            '(c), a failed/cancelled transfer (d)')
+
+    def depth(self, tier):
+        return 7 if tier == 'quick' else 9
+
+    def strategy(self, tier):
+        from ..units import sema
+        task = st.builds(
+            lambda c, o: {'kind': 'task', 'cap': c, 'ops': o},
+            st.integers(1, 4),
+            st.lists(st.sampled_from(['a', 'a', 'r']), max_size=20))
+        return st.one_of(
+            sema.sequences(), sema.sequences(), sema.blocking_cases(),
+            sema.blocking_cases(), task,
+            gen.e2e_cases(self.profile).map(lambda c: dict(c, kind='e2e')))
+
+    @staticmethod
+    def oracle(R):
+        return [('c12:' + s, m) for s, m in oracles.oracle_quiescence(R)]
+
+    def classify(self, R):
+        bad = any(r['outcome'] and not r['outcome'].get('ok')
+                  for r in R.transfers)
+        return ['e2e:' + ('failed' if bad else 'clean')], bad
+
+    def execute(self, case):
+        from ..units import sema
+        k = case.get('kind')
+        out = {'violations': [], 'cls': [k], 'nontrivial': False}
+        if k == 'seq':
+            ops = [tuple(o) for o in case['ops']]
+            viol, info = sema.run_sequence(case['cap'], ops)
+            if viol:
+                out['violations'].append(('c12:seq:' + viol[0], viol[1]))
+            else:
+                out['nontrivial'] = info['ooo']
+                out['cls'] = [f'seq:ooo={info["ooo"]}']
+            return out
+        if k == 'task':
+            viol = sema.run_task_semaphore(case['cap'], case['ops'])
+            if viol:
+                out['violations'].append(('c12:' + viol[0], viol[1]))
+            out['nontrivial'] = len(case['ops']) > case['cap']
+            return out
+        if k == 'block':
+            viol, info = sema.run_blocking(case)
+            if viol:
+                out['violations'].append(('c12:' + viol[0], viol[1]))
+            out['nontrivial'] = info.get('blocked', False)
+            out['cls'] = [f'block:parked={info.get("blocked")}']
+            return out
+        return super().execute(case)
+
+    def shrink_candidates(self, case):
+        k = case.get('kind')
+        if k == 'seq':
+            ops = case['ops']
+            for i in range(len(ops) - 1, -1, -1):
+                c = copy.deepcopy(case)
+                del c['ops'][i]
+                yield c
+            if case['cap'] > 1:
+                yield dict(case, cap=case['cap'] - 1)
+            return
+        if k == 'block':
+            c = copy.deepcopy(case)
+            c['sched'] = {'mode': 'walk', 'choices': []}
+            yield c
+            if len(case['acq']) > 1:
+                c = copy.deepcopy(case)
+                c['acq'] = c['acq'][:-1]
+                c['hold'] = c['hold'][:-1]
+                yield c
+            return
+        if k == 'task':
+            return
+        for c in super().shrink_candidates(case):
+            yield dict(c, kind='e2e')
+
+    def extra_shards(self, tier):
+        return 16
+
+    def extra_shard(self, tier, seed, shard, nshards, stats):
+        from ..units import sema
+        d = self.depth(tier)
+        for cap in (1, 2, 3):
+            def visit(ops, cap=cap):
+                viol, info = sema.run_sequence(cap, ops)
+                out = {'violations': [], 'cls': [f'dfs:cap={cap}'],
+                       'nontrivial': False,
+                       'fp': f'd{cap}-' + repr(ops)}
+                if viol:
+                    out['violations'].append(('c12:seq:' + viol[0], viol[1]))
+                else:
+                    out['nontrivial'] = info['ooo']
+                stats.add({'kind': 'seq', 'cap': cap,
+                           'ops': [list(o) for o in ops]}, out,
+                          max_samples=1)
+            sema.dfs(cap, d, shard, nshards, visit)
+
+    def coverage_extra(self, tier, results):
+        return {'exhaustive': True,
+                'exhaustive_bound': f'all operation sequences of length '
+                                    f'{self.depth(tier)} (and their '
+                                    f'prefixes), <=3 tags, capacity 1..3',
+                'explanation': 'exhaustive: true refers to sub-domain (a)'}
+
+
+class C17(Check):
+    id = 'C17'
+    quick_examples = 40000
+    thorough_examples = 600000
+    assumptions = [
+        'operations are generated as every caller uses them: announce_done '
+        'only after a terminal status; result() only once it no longer '
+        'blocks',
+        'concurrent histories run under vt/detsched.py with up to 3 '
+        'line-level preemptions (sys.monitoring) besides the '
+        'synchronisation points',
+        'the done event is read through TransferCoordinator._done_event',
+    ]
+    rule = ('(a) exhaustive: every sequence over the 11 coordinator/future '
+            'operations {queued, running, set_result, set_exception, '
+            'set_exception(override), cancel, cancel(FatalError), '
+            'announce_done, add_done_callback, add_failure_cleanup, user '
+            'set_exception} up to the length in coverage.exhaustive_bound, '
+            'real objects vs a reference state machine, all observers '
+            'compared after every operation; (b) Hypothesis sequences up to '
+            '30 ops; (c) 2-3 threads running drawn operation lists under the '
+            'deterministic scheduler with line-level preemption: done() '
+            'monotone at every step, final state linearizable; non-trivial ='
+            ' >=2 terminal operations (set_result/set_exception/cancel/user '
+            'set_exception) in the history')
+
+    def depth(self, tier):
+        return 6 if tier == 'quick' else 7
+
+    def strategy(self, tier):
+        from ..units import coord
+        return st.one_of(coord.sequences(), coord.concurrent_cases(),
+                         coord.concurrent_cases())
+
+    def execute(self, case):
+        from ..units import coord
+        out = {'violations': [], 'cls': [case['kind']], 'nontrivial': False}
+        if case['kind'] == 'seq':
+            viol, info = coord.run_sequence(case['ops'])
+            if viol:
+                out['violations'].append(('c17:seq:' + viol[0], viol[1]))
+            else:
+                out['nontrivial'] = info['terminal_ops'] >= 2
+        else:
+            viol, info = coord.run_concurrent(case)
+            if viol:
+                out['violations'].append(('c17:' + viol[0], viol[1]))
+            else:
+                out['nontrivial'] = info.get('terminal', 0) >= 2
+        return out
+
+    def shrink_candidates(self, case):
+        if case['kind'] == 'seq':
+            for i in range(len(case['ops']) - 1, -1, -1):
+                c = copy.deepcopy(case)
+                del c['ops'][i]
+                if c['ops']:
+                    yield c
+        else:
+            c = copy.deepcopy(case)
+            c['sched'] = {'mode': 'walk', 'choices': []}
+            yield c
+            if case.get('lines'):
+                for i in range(len(case['lines'])):
+                    c = copy.deepcopy(case)
+                    del c['lines'][i]
+                    yield c
+            for t in range(len(case['threads'])):
+                for i in range(len(case['threads'][t])):
+                    c = copy.deepcopy(case)
+                    del c['threads'][t][i]
+                    if all(c['threads']):
+                        yield c
+
+    def extra_shards(self, tier):
+        return 16
+
+    def extra_shard(self, tier, seed, shard, nshards, stats):
+        from ..units import coord
+        for d in range(1, self.depth(tier) + 1):
+            if d < 3 and shard != 0:
+                continue
+            for ops in coord.enumerate_sequences(
+                    d, shard if d >= 3 else 0, nshards if d >= 3 else 1):
+                viol, info = coord.run_sequence(ops)
+                out = {'violations': [], 'cls': [f'exh:len={d}'],
+                       'nontrivial': False, 'fp': 'x' + ''.join(ops)}
+                if viol:
+                    out['violations'].append(('c17:seq:' + viol[0], viol[1]))
+                else:
+                    out['nontrivial'] = info['terminal_ops'] >= 2
+                stats.add({'kind': 'seq', 'ops': list(ops)}, out,
+                          max_samples=1)
+
+    def coverage_extra(self, tier, results):
+        return {'exhaustive': True,
+                'exhaustive_bound': f'all operation sequences of length <= '
+                                    f'{self.depth(tier)} over 11 operations',
+                'explanation': 'exhaustive: true refers to sub-domain (a)'}
+
+
+class C14(E2ECheck):
+    id = 'C14'
+    quick_examples = 30000
+    thorough_examples = 500000
+    oracle = staticmethod(oracles.oracle_c14)
+    profile = {
+        'types': ['upload', 'upload', 'download', 'copy'],
+        'ntransfers': (1, 1), 'subs': {'max': 1, 'size': True},
+        'ends': ['shutdown'], 'execs': ['serial', 'thr'],
+        'max_thr': 64, 'max_chunk': 32,
+    }
+    rule = ('(a) exhaustive on a scaled domain: all (size 0..400, part 1..64)'
+            ' for calculate_num_parts/calculate_range_parameter (with and '
+            'without total_size), all (size 0..600 and None, chunk 1..80) '
+            'for ChunksizeAdjuster(min 5, max 40, parts 10); (b) real scale: '
+            'Hypothesis points over sizes to 5 TiB and chunks to 6 GiB biased'
+            ' to k*c-1/+0/+1, powers of two +-1 and the S3 limits +-1; (c) '
+            'end to end: Range / CopySourceRange / PartNumber / body length '
+            'of the requests the TransferManager issues (scaled adjuster); '
+            'oracle = validity predicates (tiling, numbering, limits, '
+            'chunk unchanged when valid); non-trivial = size not a multiple '
+            'of the part size, or a limit active')
+
+    def strategy(self, tier):
+        from ..units import planning
+        return st.one_of(
+            planning.real_scale_points(), planning.real_scale_points(),
+            gen.e2e_cases(self.profile).map(lambda c: dict(c, kind='e2e')))
+
+    def classify(self, R):
+        cfg = R.case['cfg']
+        nt = False
+        cls = []
+        for r in R.transfers:
+            size = r['spec'].get('size', 0)
+            m = oracles.mode_of(R, r)
+            cls.append(f'e2e:{r["type"]}:{m}')
+            if m in ('multipart', 'ranged') and (
+                    size % cfg['multipart_chunksize'] or
+                    cfg['multipart_chunksize'] < R.case['adj'][0] or
+                    cfg['multipart_chunksize'] > R.case['adj'][1]):
+                nt = True
+        return cls, nt
+
+    def execute(self, case):
+        from ..units import planning
+        if case.get('kind') == 'real':
+            out = {'violations': [], 'cls': ['real'], 'nontrivial': False}
+            viol = planning.check_real_point(case)
+            if viol:
+                out['violations'].append(('c14:' + viol[0], viol[1]))
+            c, s = case['chunk'], case['size']
+            out['nontrivial'] = bool(s % c) or c < planning.S3_MIN_PART \
+                or c > planning.S3_MAX_PART or \
+                planning.ceil_div(s, c) > planning.S3_MAX_PARTS
+            return out
+        return super().execute(case)
+
+    def shrink_candidates(self, case):
+        if case.get('kind') == 'real':
+            return
+        for c in super().shrink_candidates(case):
+            yield dict(c, kind='e2e')
+
+    def extra_shards(self, tier):
+        return 16
+
+    def extra_shard(self, tier, seed, shard, nshards, stats):
+        from ..units import planning
+        for size in range(0, 401):
+            if size % nshards != shard:
+                continue
+            for part in range(1, 65):
+                for wt in (False, True):
+                    viol = planning.check_ranges(size, part, wt)
+                    out = {'violations': [], 'cls': ['exh:ranges'],
+                           'nontrivial': bool(size % part),
+                           'fp': f'r{size}-{part}-{wt}'}
+                    if viol:
+                        out['violations'].append(
+                            ('c14:scaled:' + viol[0], viol[1]))
+                    stats.add({'kind': 'ranges', 'size': size, 'part': part,
+                               'total': wt}, out, max_samples=1)
+        for size in list(range(0, 601)) + [None]:
+            if (size or 0) % nshards != shard:
+                continue
+            for chunk in range(1, 81):
+                viol = planning.check_adjuster(5, 40, 10, chunk, size)
+                out = {'violations': [], 'cls': ['exh:adjuster'],
+                       'nontrivial': chunk < 5 or chunk > 40 or (
+                           size is not None and
+                           planning.ceil_div(size, chunk) > 10),
+                       'fp': f'a{size}-{chunk}'}
+                if viol:
+                    out['violations'].append(
+                        ('c14:scaled:' + viol[0], viol[1]))
+                stats.add({'kind': 'adjuster', 'size': size, 'chunk': chunk},
+                          out, max_samples=1)
+
+    def coverage_extra(self, tier, results):
+        return {'exhaustive': True,
+                'exhaustive_bound': 'ranges: size 0..400 x part 1..64 x '
+                                    '{total_size given, not given}; adjuster '
+                                    '(5,40,10): size 0..600|None x chunk '
+                                    '1..80',
+                'explanation': 'exhaustive: true refers to sub-domain (a)'}
